@@ -366,4 +366,9 @@ def gen_generic_case(ctx, G, cls: str | None = None, fits: bool = True, entry: s
     entry = entry or "stream_frames"
     if entry == "flat_file":
         sink, ns = False, []
+    if entry == "stream_frames" and fits and not churn and r.random() < 0.03:
+        # the empty sequence: an options frame and nothing else (flat_stream_to_file guesses the stream
+        # class from the first statement and writes nothing at all for an empty generator -- by
+        # construction of that entry point, so only stream_frames is given empty inputs)
+        stmts = []
     return {"cfg": cfg, "stmts": stmts, "ns": ns, "sink": sink, "entry": entry, "oracles": ["roundtrip", "spec", "flushed"]}
